@@ -19,6 +19,7 @@ RULE = ("merkle: EVERY list length 1..300 (thorough 1..2048) with distinct ids a
 ASSUMPTIONS = ["vf/ref/merkle_ref.py (recursive merkle, validated on mainnet blocks 170 and 100000), vf/ref/script_ref.py CScriptNum, "
                "vf/ref/tx_ref.py parser"]
 OBLIGATIONS = {
+    "history_sequences": "operation sequences (non-initial process states) explored",
     "merkle_odd_above_leaves": "a list length whose tree has an odd level above the leaves (5, 6, 9..)",
     "height_0": "height 0", "height_le_16": "a height 1..16 (OP_n form)", "height_sign_pad": "a height whose top bit needs a sign byte (128, 32768..)",
     "halving_boundary_main": "height 210000*k +-1", "halving_boundary_regtest": "height 150*k +-1 on regtest",
@@ -156,7 +157,19 @@ CASES = {"merkle": chk_merkle, "coinbase": chk_coinbase, "block": chk_block}
 
 
 def run_case(kind, case):
+    if kind == "seq":
+        from vf import seqexplore
+        return seqexplore.replay(run_case, case)
     return CASES[kind](case)
+
+
+def seq_ops(job):
+    seed = job["seed"]
+    ops = [("merkle", {"seed": seed, "n": n, "equal": False}) for n in (1, 2, 3, 5, 6, 7)] + [("merkle", {"seed": seed, "n": 5, "equal": True})]
+    for h, reg, sl, rw, cm in ((0, False, 4, "default", False), (150, False, 4, "default", False), (150, True, 4, "default", True), (210000, False, 96, "subsidy", False),
+                               (17, True, 99, "over", False), (500000, False, 0, "half", True)):
+        ops.append(("coinbase", {"seed": seed, "height": h, "regtest": reg, "slen": sl, "reward": rw, "commit": cm}))
+    return ops
 
 
 def boundary_heights():
@@ -179,10 +192,15 @@ def jobs(tier, seed):
     for sh in range(8):
         js.append({"name": f"coinbase-boundary/{sh}", "part": "cb-bnd", "shard": [sh, 8], "weight": 6})
     js.append({"name": "block", "part": "block", "weight": 4})
+    from vf.runner import seq_jobs
+    js += seq_jobs(3, weight=2)
     return js
 
 
 def run_job(job):
+    if job["part"] == "seq":
+        from vf.runner import run_seq_job
+        return run_seq_job(job, seq_ops(job), run_case)
     acc = Acc(job)
     seed, tier, part = job["seed"], job["tier"], job["part"]
     if part == "merkle":
